@@ -677,6 +677,13 @@ def _agg_case(cls_name):
     def gen(rng, i):
         n = rng.choice([0, 1, 2, 3, 4]) if cls_name == "StructureType" else rng.choice([0, 1, 2, 3, 256, 257])
         base = [_gen_type(rng, 2, big=False) for _ in range(min(n, 4))]
+        if n >= 2 and rng.random() < 0.3:
+            # two members whose length sets differ but agree in min, max and residues modulo 32 ({8, 72} / {8, 40, 72}):
+            # BitLengthSet.__eq__ / __hash__ cannot tell them apart, the layout must
+            pair = [["var", ["prim", "uint", 64], 1], ["var", ["prim", "uint", 32], 2]]
+            if rng.random() < 0.5:
+                pair.reverse()
+            base = pair + base[2:]
         return {"types": base, "n": n}
 
     def build(desc):
@@ -738,3 +745,9 @@ def _varinit_extra(ns):
 
 
 _VariableInit.native_extra_post = staticmethod(_varinit_extra)
+
+
+# effect obligations (AST, complete for what they state): no memoising decorator, no module-level state - see specs/common.py
+from .common import no_hidden_state_check as _no_hidden_state_check  # noqa: E402
+EXTRA_CHECKS = list(globals().get("EXTRA_CHECKS", [])) + [_no_hidden_state_check(
+    ["pydsdl._serializable._serializable", "pydsdl._serializable._primitive", "pydsdl._serializable._void", "pydsdl._serializable._array", "pydsdl._serializable._composite", "pydsdl._serializable._attribute"], "the type constructors and layout queries")]
